@@ -127,6 +127,7 @@ def sender (C : Crypto) (networkId : Nat) (tx : Tx) : Except SenderErr Addr :=
 structure Account where
   nonce   : Nat := 0
   balance : Int := 0
+  hasCode : Bool := false      -- only what the creation-collision check needs to know about code
   deriving DecidableEq, Repr, Inhabited
 
 /-- The accounts: an association list, newest binding first (a data structure, not a function, so that the
@@ -254,27 +255,41 @@ def evmConvOut (o : EvmOut) (initial : Nat) : ConvOut :=
 def evmConv (evm : Evm) : Converter := fun m w refund avail initial =>
   evmConvOut (evm m (callWorld m w) refund avail) initial
 
+/-- `evm.create` bumps the caller's nonce right after the `CanTransfer` guard (before the collision check); `evm.Call`
+does not touch it -/
+def bumpIfCreate (m : Msg) (w : World) : World :=
+  if m.f.to.isSome then w else w.setNonce m.sender (((w.get m.sender).nonce + 1) % U64)
+
+/-- `evm.create`'s collision check: the designated address already has a nonce or code -/
+def occupied (w : World) (a : Addr) : Bool := (w.get a).nonce != 0 || (w.get a).hasCode
+
+/-- what `evm.create` returns on `ErrContractAddressCollision`: the caller's nonce is ALREADY bumped (`w1`), nothing else
+is touched, no gas comes back -/
+def collisionOut (w1 : World) (refund : Nat) : EvmOut := { world := w1, refund := refund, gasLeft := 0, vmerr := .other }
+
 /-- `evm.Call` to an address without code that is not a precompile (a plain transfer), and
 `evm.Create` with empty init code, as far as nonces and balances go:
-`CanTransfer` else `ErrInsufficientBalance` with all gas returned; then (creation only) the nonce bump;
-then `Transfer`; nothing runs, no gas is used.  `dest` is the recipient (or the new contract's address). -/
+`CanTransfer` else `ErrInsufficientBalance` with all gas returned; then (creation only) the nonce bump and the
+address-collision check (all gas lost, nonce stays bumped); then `Transfer`; nothing runs, no gas is used.
+`dest` is the recipient (or the new contract's address). -/
 def evmPlain (dest : Msg → World → Addr) : Evm := fun m w refund gas =>
   if (w.get m.sender).balance < (m.f.value : Int) then
     { world := w, refund := refund, gasLeft := gas, vmerr := .insufficientBalance }
   else
-    let w1 := if m.f.to.isSome then w else w.setNonce m.sender (((w.get m.sender).nonce + 1) % U64)
-    { world := w1.transfer m.sender (dest m w) m.f.value, refund := refund, gasLeft := gas, vmerr := .none }
+    if m.f.to.isNone && occupied (bumpIfCreate m w) (dest m w) then collisionOut (bumpIfCreate m w) refund
+    else { world := (bumpIfCreate m w).transfer m.sender (dest m w) m.f.value, refund := refund, gasLeft := gas, vmerr := .none }
 
 /-- An EVM run summarised by its outcome (used by the correspondence driver for calls and creations that
-execute code): the `CanTransfer` guard is evaluated by the model, the rest is what was observed —
-gas left, refund counter, whether the run failed; the value reaches `dest` exactly when the run succeeded. -/
+execute code): the `CanTransfer` guard and the creation-collision check are evaluated by the model, the rest is what was
+observed — gas left, refund counter, whether the run failed; the value reaches `dest` exactly when the run succeeded. -/
 def evmObserved (dest : Addr) (gasLeft refundAfter : Nat) (ok : Bool) : Evm := fun m w refund gas =>
   if (w.get m.sender).balance < (m.f.value : Int) then
     { world := w, refund := refund, gasLeft := gas, vmerr := .insufficientBalance }
   else
-    let w1 := if m.f.to.isSome then w else w.setNonce m.sender (((w.get m.sender).nonce + 1) % U64)
-    if ok then { world := w1.transfer m.sender dest m.f.value, refund := refundAfter, gasLeft := gasLeft, vmerr := .none }
-    else { world := w1, refund := refundAfter, gasLeft := gasLeft, vmerr := .other }
+    if m.f.to.isNone && occupied (bumpIfCreate m w) dest then collisionOut (bumpIfCreate m w) refund
+    else if ok then
+      { world := (bumpIfCreate m w).transfer m.sender dest m.f.value, refund := refundAfter, gasLeft := gasLeft, vmerr := .none }
+    else { world := bumpIfCreate m w, refund := refundAfter, gasLeft := gasLeft, vmerr := .other }
 
 /-- A staking handler summarised by its outcome: success debits `stake` from the sender. -/
 def handlerObserved (ok : Bool) (stake : Nat) : Nat → List UInt8 → Msg → World → World × Bool :=
